@@ -221,7 +221,8 @@ def run_one(seed, idx, tier):
     try:
         status, detail, extra = explore(prog, text, tn, seed, idx, tier, stats)
     except VhdlError as e:
-        status, detail, extra = "legality", {"rule": e.rule, "msg": str(e)}, {}
+        res.update(status="skipped", reason="illegal-vhdl:" + str(e.rule), stats=stats)
+        return res
     except Unsupported as e:
         res.update(status="harness", vclass="unsupported", detail={"msg": str(e)})
         return res
